@@ -387,6 +387,9 @@ class RenderContext:
             loop_iteration_carry = 1
 
         if block_scope:
+            # The block continues the page's loop stack (below), so the loops
+            # around the block are counted there and not in the carry.
+            loop_iteration_carry = self.loop_iteration_carry
             ctx = self.__class__(
                 template or self.template,
                 global_data=ReadOnlyChainMap(namespace, self.scope),
@@ -402,10 +405,14 @@ class RenderContext:
             # (`cycle`, `increment`, `decrement`, `for ... offset: continue`,
             # `ifchanged`) and the block stacks continue in the block where the
             # page left off, and the page continues after the block, just as
-            # when the template is rendered without an inheritance chain. Only
-            # variables assigned in the block stay in the block.
+            # when the template is rendered without an inheritance chain. So
+            # does the stack of `for` loops: `forloop.parentloop` of a loop in
+            # the block is the loop of the page around the block, and the loop
+            # iteration limit counts the nest as it is written. Only variables
+            # assigned in the block stay in the block.
             ctx.tag_namespace = self.tag_namespace
             ctx.counters = self.counters
+            ctx.loops = self.loops
             ctx.scope = ReadOnlyChainMap(
                 ctx.locals,
                 ctx.globals,
